@@ -100,6 +100,7 @@ func (s *ApplyStage) Process(ctx context.Context, item *BlockItem) error {
 func (s *ApplyStage) ProcessWithStatus(ctx context.Context, item *BlockItem) ([]*BlockItem, error) {
 	select {
 	case <-ctx.Done():
+		verifTrace(evADropCancel, nil, item.SequenceNumber(), 0)
 		return nil, ctx.Err()
 	default:
 	}
@@ -108,6 +109,7 @@ func (s *ApplyStage) ProcessWithStatus(ctx context.Context, item *BlockItem) ([]
 
 	// Check if this is the next item to apply
 	if item.SequenceNumber() == s.nextSequence {
+		verifTrace(evANext, nil, item.SequenceNumber(), 0)
 		s.nextSequence++
 		s.mu.Unlock()
 		s.maybeApply(ctx, item)
@@ -122,6 +124,7 @@ func (s *ApplyStage) ProcessWithStatus(ctx context.Context, item *BlockItem) ([]
 
 	// Buffer for later - always add to preserve sequence ordering
 	s.pending[item.SequenceNumber()] = item
+	verifTrace(evABuffer, nil, item.SequenceNumber(), 0)
 	pendingCount := len(s.pending)
 	s.mu.Unlock()
 
@@ -139,9 +142,11 @@ func (s *ApplyStage) ProcessWithStatus(ctx context.Context, item *BlockItem) ([]
 // ErrBlockNotValidated so the skip is observable downstream.
 func (s *ApplyStage) maybeApply(ctx context.Context, item *BlockItem) {
 	if item.DecodeError() != nil || item.ValidationError() != nil {
+		verifTrace(evASkip, nil, item.SequenceNumber(), 0)
 		return
 	}
 	if s.requireValidation && !item.IsValid() {
+		verifTrace(evANotVal, nil, item.SequenceNumber(), 0)
 		item.SetApplied(false, ErrBlockNotValidated, 0)
 		return
 	}
@@ -150,8 +155,10 @@ func (s *ApplyStage) maybeApply(ctx context.Context, item *BlockItem) {
 
 // applyItem applies a single item without holding the lock.
 func (s *ApplyStage) applyItem(ctx context.Context, item *BlockItem) {
+	vst := verifStamp()
 	select {
 	case <-ctx.Done():
+		verifTrace(evACancelled, nil, item.SequenceNumber(), 0)
 		item.SetApplied(false, ctx.Err(), 0)
 		return
 	default:
@@ -166,12 +173,14 @@ func (s *ApplyStage) applyItem(ctx context.Context, item *BlockItem) {
 		s.mu.Unlock()
 	}()
 
+	verifTraceAt(vst, evABegin, nil, item.SequenceNumber())
 	start := time.Now()
 	var err error
 	if s.applyFunc != nil {
 		err = s.applyFunc(item)
 	}
 	duration := time.Since(start)
+	verifTrace(evAEnd, nil, item.SequenceNumber(), verifB(err != nil))
 
 	if err != nil {
 		item.SetApplied(false, err, duration)
@@ -188,6 +197,7 @@ func (s *ApplyStage) applyPending(ctx context.Context) []*BlockItem {
 	for {
 		select {
 		case <-ctx.Done():
+			verifTrace(evAPendStopCancel, nil, 0, 0)
 			return processed
 		default:
 		}
@@ -195,11 +205,13 @@ func (s *ApplyStage) applyPending(ctx context.Context) []*BlockItem {
 		s.mu.Lock()
 		item, ok := s.pending[s.nextSequence]
 		if !ok {
+			verifTrace(evAPendStop, nil, 0, 0)
 			s.mu.Unlock()
 			return processed
 		}
 		delete(s.pending, s.nextSequence)
 		s.nextSequence++
+		verifTrace(evAPop, nil, item.SequenceNumber(), 0)
 		s.mu.Unlock()
 
 		// Apply if valid, otherwise just advance (sequence already incremented)
@@ -315,6 +327,7 @@ func (r *ApplyStageRunner) run(ctx context.Context) {
 		close(r.done)
 		r.mu.Unlock()
 	}()
+	defer verifTrace(evAExit, nil, 0, 0)
 
 	for {
 		select {
@@ -324,12 +337,16 @@ func (r *ApplyStageRunner) run(ctx context.Context) {
 			if !ok {
 				return
 			}
+			verifTrace(evATake, nil, item.SequenceNumber(), 0)
 
 			processed, err := r.stage.ProcessWithStatus(ctx, item)
 			if err != nil {
+				vst := verifStamp()
 				select {
 				case r.errors <- err:
+					verifTraceAt(vst, evAErrSent, nil, item.SequenceNumber())
 				case <-ctx.Done():
+					verifTrace(evAErrAbort, nil, item.SequenceNumber(), 0)
 					return
 				}
 				continue
@@ -355,20 +372,28 @@ func (r *ApplyStageRunner) forwardItem(ctx context.Context, item *BlockItem) {
 		r.metrics.RecordPipelineLatency(item.TotalDuration())
 	}
 
+	vst := verifStamp()
 	select {
 	case r.output <- item:
+		verifTraceAt(vst, evAFwdSend, nil, item.SequenceNumber())
+		verifLock()
 		if r.onForwarded != nil {
 			r.onForwarded()
 		}
+		verifTraceUnlock(evAFwdDec, item.SequenceNumber())
 	case <-ctx.Done():
+		verifTrace(evAFwdDrop, nil, item.SequenceNumber(), 0)
 		return
 	}
 
 	// Report apply errors separately
 	if applyErr := item.ApplyError(); applyErr != nil {
+		vst := verifStamp()
 		select {
 		case r.errors <- applyErr:
+			verifTraceAt(vst, evAFwdErr, nil, item.SequenceNumber())
 		case <-ctx.Done():
+			verifTrace(evAFwdErrDrop, nil, item.SequenceNumber(), 0)
 			return
 		}
 	}
